@@ -265,6 +265,8 @@ def mk(prior):
                                  PRELUDE + FL + body + IDX_TAIL, "Manager.load")
     from rac import sametext
     sametext.run(rac, "C03")
+    from rac import failedredef
+    failedredef.run(rac, "C03")
     rac.section("random", "random histories of length 6..16 (seeded; every other one with definitions that read a nested container as a whole "
                 "and containers replaced by value), same checks", "150 quick / 3000 thorough", exhaustive=False)
     for _k in range(150 if quick else 3000):
